@@ -118,10 +118,10 @@ META = {
         "technique": "Lean 4 proof (counter invariants by induction over histories, ∀ oracle) + correspondence after every step",
     },
     "C04": {
-        "text": "PARTIAL, layered. Proved unconditionally for every table size 3 ≤ q ≤ 31 and every canonical set (Layer A): on the canonical table `layout q S` (an independent, executable specification of where a set of (quotient, remainder) pairs sits, incl. wrap-around) look-up terminates and is exact membership and iteration terminates and yields every stored hash exactly once (C04_contained, C04_hashes, C04_check_layout). Proved given Layer B (C04_partial, C04_partial_B): IF add and remove map layout S to layout (S ∪ {h}) / layout (S ∖ {h}) (B1_add, B2_remove: visible Props, NOT proved for all n) THEN for every history of add/remove/resize/merge (manual or automatic resize, any budget) that did not raise: state = layout of the set, check ⇔ membership, get_hashes = the set without duplicates, elements_added = its size, remove never raises or diverges, add is refused exactly on a new hash into a full table. Unconditional for unbounded histories over bounded universes at q = 3 (C04_exact_set_universe: B1/B2 instances established by kernel evaluation over all 128 / 64 subsets). Plus unconditional step facts (count ±1, refusal iff full, shapes). Tie: the qf suite compares the COMPLETE real state (three metadata arrays, remainders, count, hashes) with the mirrored model AND with layout(set) computed by the specification after EVERY operation (real = mirror = layout), q ∈ {3,4,5,8}, long runs, wrap-around, resizes, merges; a step budget observes non-termination.",
-        "design_ref": "§4 C04, §7",
-        "note": TIE + " PARTIAL: the refinement of the two write paths for all table sizes (B1_add, B2_remove) is a hypothesis of the unbounded exact-set theorem; it is supported — not proved — by kernel-checked exhaustive enumeration on small tables and by the correspondence, which shows on every state actually reached that the real table IS layout(set), where the Layer-A theorems then apply rigorously. Hashes < 2^32; the three Bitarrays are modelled as List Bool (C20 is that refinement).",
-        "technique": "Lean 4 proof of the read paths on the canonical layout + conditional refinement theorem + kernel-checked small tables; correspondence of the complete state against the layout specification",
+        "text": "UNCONDITIONAL exact-set theorem (C04_exact_set): for every quotient size 3..31, auto-expand on/off and every history of add / remove / resize (manual or automatic) / merge on 32-bit hashes in which no call raised, the complete table equals `layout q S` — the canonical table, given by an independent executable specification incl. wrap-around, of the set S of hashes added and not removed since — check is exact membership, get_hashes is S without duplicates, elements_added = |S|. Built from: Layer A (look-up and iteration on layout q S are exact and terminate, all table sizes: C04_contained, C04_hashes), Layer B (add and remove map layout S to layout (S ∪ {h}) / layout (S ∖ {h}), all table sizes — the metadata repair pass provably restores canonical form: C04_B1_add, C04_B2_remove) and the induction over histories (C04_partial). remove never raises or diverges (C04_remove_total); add without auto-resize is refused exactly for a new hash into a table holding size−1 hashes (C04_add_outcome). Tie: the qf suite compares the COMPLETE real state (three metadata arrays, remainders, count, hashes) with the mirrored model AND with layout(set) computed by the specification after EVERY operation (real = mirror = layout), q ∈ {3,4,5,8}, long runs, wrap-around, several automatic resizes, merges; a step budget observes non-termination.",
+        "design_ref": "§4 C04",
+        "note": TIE + " Not proved: that the recursion budget the model gives add_alt/resize/merge always suffices (the theorem is for histories in which no call raised or reported divergence, any budget); termination of remove, look-up, iteration and non-resizing add is proved. Hashes < 2^32; the three Bitarrays are modelled as List Bool (C20 is that refinement).",
+        "technique": "Lean 4 refinement proof to a canonical-layout specification (read paths, write paths, induction over histories) + correspondence of the complete state against the layout specification",
     },
 }
 
